@@ -16,6 +16,7 @@ import vlib, enginelib
 
 AREA = "crash"
 WD = os.path.join(vlib.WORK, "crash")
+RUN = os.path.join(WD, "r%d" % os.getpid())          # scratch of this run (removed at the end)
 SHIM_SRC = os.path.join(vlib.ROOT, "harness", "cpp", "crash_shim.c")
 SHIM = os.path.join(WD, "libcrashshim.so")
 DBFILES = ("build.db", "build.db-journal", "build.db-wal", "build.db-shm")
@@ -405,7 +406,7 @@ class Target:
 
     def __init__(self, chk, drv, model, hist, bi, name, schema=1):
         self.chk, self.drv, self.model, self.hist, self.bi, self.name = chk, drv, model, hist, bi, name
-        self.d = os.path.join(WD, name)
+        self.d = os.path.join(RUN, name)
         shutil.rmtree(self.d, ignore_errors=True)
         os.makedirs(self.d)
         self.idx = build_indices(hist)
@@ -605,6 +606,108 @@ class Target:
         return verdict
 
 
+class WholeTarget:
+    """The whole history runs in ONE process (several builds, engine restarts, statement caches and key-id caches warm) and the
+    process is killed before its N-th database call: the file must hold exactly the database as dumped after one of the
+    completed builds (or the empty database), later kill points never show an earlier build, and the next process works on it."""
+
+    def __init__(self, chk, drv, model, hist, name):
+        self.chk, self.drv, self.model, self.hist, self.name = chk, drv, model, hist, name
+        self.d = os.path.join(RUN, name)
+        shutil.rmtree(self.d, ignore_errors=True)
+        os.makedirs(self.d)
+        self.lines = ["db 1"] + hist
+        self.reached = 0
+        self.journal_left = False
+
+    def replay_base(self):
+        return dict(history=self.hist, whole_history_process=self.lines, shim="harness/cpp/crash_shim.c (LD_PRELOAD, CRASH_AT=N)")
+
+    def prepare(self):
+        chk, d = self.chk, self.d
+        cf, lf = os.path.join(d, "count.txt"), os.path.join(d, "calls.txt")
+        rc, out, err, sp, tp = enginelib.run_impl(self.drv, self.lines, d, name="reference", env=shim_env(0, cf, lf))
+        if rc != 0 or not os.path.exists(cf):
+            chk.violation("driver-crash", "engine_driver failed on the uncrashed reference run (rc %d)" % rc, dict(self.replay_base(), stderr=err[-1500:]))
+            return False
+        self.total = int(open(cf).read().strip() or 0)
+        self.calls = [l.split(" ") for l in open(lf).read().splitlines()]
+        builds = [b for b in enginelib.split_builds(out) if b["key"] is not None]
+        self.dumps = [[]]
+        self.traces = []
+        for b in builds:
+            for key, what in provenance_check(b) + check_outputs([b["hdr"]] + b["other"]):
+                chk.violation(key, "uncrashed build: " + what, dict(self.replay_base(), build=b["hdr"]))
+            self.traces.append(ops_of_build(self.dumps[-1], b))
+            self.dumps.append(list(b["db"]))
+        self.trace_all = [o for t in self.traces for o in t]
+        if self.model.ask("wf " + ";".join(self.trace_all)) != "1":
+            chk.violation("model-correspondence", "the Coq model rejects the operation trace rebuilt from an UNCRASHED history", dict(self.replay_base(), trace=";".join(self.trace_all)[:4000]),
+                          found_input=False, broken="correspondence: Engine/Crash.v wf_trace vs SQLiteBuildDB")
+            return False
+        return self.total > 0
+
+    def call_desc(self, n):
+        if 1 <= n <= len(self.calls):
+            c = self.calls[n - 1]
+            return "%s(%s%s)" % (c[1], c[2], "" if c[3] == "-" else ", %s bytes%s" % (c[3], "" if c[4] == "-" else " at %s" % c[4]))
+        return "process exit (no kill)"
+
+    def kill(self, N, cont_rng):
+        chk, d = self.chk, self.d
+        rc, out, err, sp, tp = enginelib.run_impl(self.drv, self.lines, d, name="crash", env=shim_env(N))
+        rp = dict(self.replay_base(), kill_before_call=N, call=self.call_desc(N), total_calls=self.total)
+        if (N <= self.total and rc != 77) or (N > self.total and rc != 0):
+            chk.violation("kill-not-delivered", "the shim did not kill the process before call %d of %d (rc %d)" % (N, self.total, rc), dict(rp, stderr=err[-800:]),
+                          found_input=False, broken="harness: deterministic call numbering")
+            return None
+        self.journal_left = os.path.exists(os.path.join(d, "build.db-journal"))
+        pyd = os.path.join(d, "py")
+        copy_db(d, pyd)
+        db = read_db(os.path.join(pyd, "build.db"))
+        j = None
+        if not db["ok"]:
+            chk.violation("db-unusable", "after a kill before call %d (%s) the database cannot be read: %s" % (N, self.call_desc(N), db["problems"]), rp)
+        else:
+            for key, what in db_inv(db):
+                chk.violation(key, "after a kill before call %d (%s): %s" % (N, self.call_desc(N), what), dict(rp, dump=db["lines"][:60]))
+            cands = [i for i, dl in enumerate(self.dumps) if dl == db["lines"] or (i == 0 and not db["rows"] and db["iteration"] == 0)]
+            if not cands:
+                chk.violation("db-not-atomic", "after a kill before call %d (%s) the database is not the snapshot after any completed build of the history" % (N, self.call_desc(N)),
+                              dict(rp, found=db["lines"][:60]))
+            else:
+                j = cands[-1]
+                if j < self.reached:
+                    chk.violation("db-nonmonotone", "a kill before call %d shows the database after build %d although an earlier kill point already showed build %d" % (N, j, self.reached), rp)
+                self.reached = max(self.reached, j)
+                n_ops = sum(len(t) for t in self.traces[:j]) + (len(self.traces[j]) - 1 if j < len(self.traces) else 0)
+                m = self.model.ask("recover %d %s" % (n_ops, ";".join(self.trace_all)))
+                if m != state_str(db) + " inv=1":
+                    chk.violation("model-correspondence", "kill before call %d: observed state differs from the model's recover (build %d committed, next one cut before its Commit)" % (N, j),
+                                  dict(rp, model=m[:1500], observed=state_str(db)[:1500]), found_input=False, broken="correspondence: Engine/Crash.v recover vs SQLite")
+        obs = obs_keys(self.hist)
+        cont = ["set %d %d" % (k, cont_rng.randint(0, 5)) for k in cont_rng.sample(obs, min(len(obs), cont_rng.randint(0, 2)))]
+        roots = [l.split(" ")[1] for l in self.hist if l.startswith("build ")]
+        cont.append("build %s" % cont_rng.choice(roots))
+        for k in cont_rng.sample(obs, min(len(obs), cont_rng.randint(1, 2))):
+            cont.append("set %d %d" % (k, cont_rng.randint(0, 5)))
+        cont.append("build %s" % roots[-1])
+        lines = ["db 2"] + carry(self.hist) + with_fresh(cont)
+        rc2, out2, err2, sp2, tp2 = enginelib.run_impl(self.drv, lines, d, keepdb=True, name="continue")
+        rp2 = dict(rp, builds_visible_after_kill=j, continuation_process=lines)
+        if rc2 != 0:
+            chk.violation("db-unusable", "the process continuing after a kill before call %d (%s) failed with rc %d" % (N, self.call_desc(N), rc2), dict(rp2, stderr=err2[-800:], stdout_tail=out2[-10:]))
+        else:
+            for key, what in check_outputs(out2):
+                chk.violation(key, "continuing after a kill before call %d (%s, %s builds visible): %s" % (N, self.call_desc(N), j, what), rp2)
+            for b in enginelib.split_builds(out2):
+                if b["key"] is not None:
+                    for key, what in dump_inv(b["db"]):
+                        chk.violation(key, "continuing after a kill before call %d: %s" % (N, what), rp2)
+        chk.count(("killw", self.name, N, self.call_desc(N).split("(")[0], j, self.journal_left) if N <= self.total else None)
+        return j
+
+
 def sync_protocol(calls):
     """write-ahead discipline visible in the call log of an uncrashed run: within each journal life time, the journal is synced
     before the first database write and the database is synced before the journal is removed -> list of texts"""
@@ -655,7 +758,7 @@ def run(chk):
 
     n_small = chk.n(7, 40)
     n_big = chk.n(1, 4)
-    budget = chk.n(560, 10**9)          # kill points in the quick tier
+    budget = chk.n(900, 10**9)          # kill points in the quick tier
     hists = [("big%d" % i, gen_hist(rng, big=True, sched=sched if i % 2 else None)) for i in range(n_big)]
     hists += [("h%d" % i, gen_hist(rng, sched=sched if i % 2 else None)) for i in range(n_small)]
     targets = []
@@ -719,7 +822,37 @@ def run(chk):
             chk.sample(dict(target=t.name, crash_process=t.crash_lines[-3:], database_calls=t.total, killed_at=len(pick),
                             commit_point="first post-build state at kill-before-call %d = just after %s" % (t.commit_at, t.call_desc(t.commit_at - 1)),
                             model_trace_ops=len(t.trace_i), pre=t.pre["lines"][-3:], post=t.post["lines"][-3:]))
+    # the same for whole histories run in one process
+    wstats = dict(histories=0, kill_points=0, total_calls=0)
+    wh = hists[:chk.n(3, len(hists))]
+    wshare = chk.n(40, 10**9)
+    for name, hist in wh:
+        t = WholeTarget(chk, drv, model, hist, name + "_whole")
+        if not t.prepare():
+            continue
+        wstats["histories"] += 1
+        wstats["total_calls"] += t.total
+        allN = list(range(1, t.total + 2))
+        if len(allN) > wshare:
+            imp = [1, t.total, t.total + 1]
+            for c in t.calls:
+                if c[2] == "journal" and c[1] in ("unlink", "unlinkat", "ftruncate", "rename"):
+                    imp += [int(c[0]), int(c[0]) + 1]
+            rest = [n for n in allN if n not in set(imp)]
+            rng.shuffle(rest)
+            pick = sorted(set(imp[:wshare - 4] + rest[:max(4, wshare - len(imp))]))
+        else:
+            pick = allN
+        crng = __import__("random").Random(rng.getrandbits(32))
+        for N in pick:
+            t.kill(N, crng)
+            wstats["kill_points"] += 1
+        nb = len(build_indices(hist))
+        if t.reached != nb:
+            chk.violation("db-never-committed", "whole-history process %s: the database after the last build was never observed (reached build %d of %d)" % (t.name, t.reached, nb), t.replay_base())
+    stats["whole_history_processes"] = wstats
     model.close()
+    shutil.rmtree(RUN, ignore_errors=True)
     chk.cov["fault_enumeration"] = stats
     chk.cov["exhaustive"] = not chk.quick()
     chk.cov["explanation"] = ("PARTIAL: process kill only. SQLite's rollback-journal implementation is exercised, not modelled; power loss (torn sector writes, "
@@ -745,10 +878,13 @@ def run(chk):
 def replay(chk, rp):
     """re-run one recorded kill point (or the whole check when the replay carries none)"""
     print(json.dumps({k: rp[k] for k in rp if k in ("finding_key", "what", "kill_before_call", "call", "killed_build_index")}, indent=1))
-    if "history" not in rp or "killed_build_index" not in rp:
+    if "history" not in rp or ("killed_build_index" not in rp and "whole_history_process" not in rp):
         return run(chk)
     drv, model = setup(chk)
-    t = Target(chk, drv, model, rp["history"], rp["killed_build_index"], "replay")
+    if "killed_build_index" in rp:
+        t = Target(chk, drv, model, rp["history"], rp["killed_build_index"], "replay")
+    else:
+        t = WholeTarget(chk, drv, model, rp["history"], "replay")
     if t.prepare():
         pts = [rp["kill_before_call"]] if "kill_before_call" in rp else list(range(1, t.total + 2))
         crng = __import__("random").Random(chk.seed)
@@ -756,4 +892,5 @@ def replay(chk, rp):
             for _ in range(3 if "kill_before_call" in rp else 1):
                 print("kill before call %d (%s): %s" % (N, t.call_desc(N), t.kill(N, crng)))
     model.close()
+    shutil.rmtree(RUN, ignore_errors=True)
     return chk.finish(level="proof", rule="replay of one recorded kill point")
